@@ -19,6 +19,7 @@ type zzFR struct {
 	released []int // how often record i was released
 	last     int   // index of the record handed out last (-1 none)
 	ioErrAt  int   // Read fails with a fatal error when pos == ioErrAt (-1 never)
+	lazyAttach bool // records hang under the root only between their Read and their Release
 }
 
 var zzFatal = errors.New("reader failure")
@@ -37,6 +38,9 @@ func (r *zzFR) Read() (*idr.Node, error) {
 	}
 	r.last = r.pos
 	r.pos++
+	if r.lazyAttach {
+		idr.AddChild(r.root, r.recs[r.last]) // a streaming reader attaches a record when it has read it
+	}
 	return r.recs[r.last], nil
 }
 
@@ -77,7 +81,9 @@ func zzMkRec(root *idr.Node, tag string, floats bool) (*idr.Node, string) {
 		}
 	}
 	t := idr.CreateNode(idr.ElementNode, "T")
-	idr.AddChild(root, t)
+	if root != nil {
+		idr.AddChild(root, t)
+	}
 	v := idr.CreateNode(idr.ElementNode, "v")
 	idr.AddChild(t, v)
 	idr.AddChild(v, idr.CreateNode(idr.TextNode, string(b)))
@@ -100,12 +106,15 @@ func C10IngesterStep() {
 	decl := transform.ZZValidate(map[string]*transform.Decl{"FINAL_OUTPUT": {Object: map[string]*transform.Decl{
 		"n": {XPath: zzS("v"), ResultType: transform.ZZRT(cast)},
 		"s": {XPath: zzS("v"), KeepEmptyOrNull: true},
+		// a declaration anchored on an ancestor of the record: the ancestor keeps its identity from
+		// record to record while what hangs under it changes
+		"up": {XPath: zzS(".."), Object: map[string]*transform.Decl{"cur": {XPath: zzS("T/v"), KeepEmptyOrNull: true}}},
 	}}})
 	root := idr.CreateNode(idr.DocumentNode, "")
-	fr := &zzFR{root: root, last: -1, ioErrAt: -1}
+	fr := &zzFR{root: root, last: -1, ioErrAt: -1, lazyAttach: true}
 	var texts []string
 	for i := 0; i < K; i++ {
-		n, s := zzMkRec(root, "rec", floats)
+		n, s := zzMkRec(nil, "rec", floats)
 		fr.recs = append(fr.recs, n)
 		texts = append(texts, s)
 	}
@@ -323,4 +332,87 @@ func C14ParIngest() {
 			}
 		}
 	}
+}
+
+// C15ErrText: the text of a record's failure is as reproducible as its output: with two
+// sibling fields that both fail (names containing dots and sharing their last part, the case
+// where the fqdn is escaped), two independent loads of the same schema — each under every
+// map-iteration order — report the same failure for the same record.
+func C15ErrText() {
+	zz.MapOrder(2)
+	mk := func() *transform.Decl {
+		return transform.ZZValidate(map[string]*transform.Decl{"FINAL_OUTPUT": {Object: map[string]*transform.Decl{
+			"billing.zip":  {XPath: zzS("v"), ResultType: transform.ZZRT("int")},
+			"shipping.zip": {XPath: zzS("w"), ResultType: transform.ZZRT("int")},
+			"zip":          {XPath: zzS("w")},
+		}}})
+	}
+	run := func(decl *transform.Decl) string {
+		n := idr.CreateNode(idr.ElementNode, "T")
+		for _, kv := range [][2]string{{"v", "SW1A"}, {"w", "EC1A"}} {
+			c := idr.CreateNode(idr.ElementNode, kv[0])
+			idr.AddChild(n, c)
+			idr.AddChild(c, idr.CreateNode(idr.TextNode, kv[1]))
+		}
+		_, err := transform.NewParseCtx(&transformctx.Ctx{}, transform.ZZFuncs, nil).ParseNode(n, decl)
+		if err == nil {
+			return "ok"
+		}
+		return err.Error()
+	}
+	e1 := run(mk())
+	e2 := run(mk())
+	zz.Observe("err", e1)
+	zz.Assert(e1 != "ok" && e2 != "ok", "the record fails (both casts fail)")
+	zz.Assert(e1 == e2, "the same record fails with the same text on every load of the schema")
+	zz.Cover("compared")
+}
+
+// C15ChecksumShapes: records of different shape never share a checksum: repeated element names
+// whose occurrences are themselves lists (<item><v/><v/></item><item>x</item>) against the
+// flattened shapes that would collide if nesting were lost.
+func C15ChecksumShapes() {
+	leaf := func(parent *idr.Node, name string, tag string) string {
+		v := zz.NondetBytesN(tag, 1)
+		zz.Assume(zz.ByteIn(v[0], "12"))
+		e := idr.CreateXMLNode(idr.ElementNode, name, idr.XMLSpecific{})
+		idr.AddChild(parent, e)
+		idr.AddChild(e, idr.CreateXMLNode(idr.TextNode, string(v), idr.XMLSpecific{}))
+		return string(v)
+	}
+	mk := func(tag string) (*idr.Node, int, string) {
+		t := idr.CreateXMLNode(idr.ElementNode, "T", idr.XMLSpecific{})
+		shape := zz.NondetChoice(tag+".shape", 4)
+		vals := ""
+		item := func() *idr.Node {
+			e := idr.CreateXMLNode(idr.ElementNode, "item", idr.XMLSpecific{})
+			idr.AddChild(t, e)
+			return e
+		}
+		switch shape {
+		case 0: // item = [v v], item = text
+			i1 := item()
+			vals += leaf(i1, "v", tag+".a") + leaf(i1, "v", tag+".b")
+			vals += leaf(t, "item", tag+".c")
+		case 1: // item = [v v v]
+			i1 := item()
+			vals += leaf(i1, "v", tag+".a") + leaf(i1, "v", tag+".b") + leaf(i1, "v", tag+".c")
+		case 2: // item = text ×3
+			vals += leaf(t, "item", tag+".a") + leaf(t, "item", tag+".b") + leaf(t, "item", tag+".c")
+		default: // item = [v], item = [v v]
+			i1 := item()
+			vals += leaf(i1, "v", tag+".a")
+			i2 := item()
+			vals += leaf(i2, "v", tag+".b") + leaf(i2, "v", tag+".c")
+		}
+		idr.AddChild(t, idr.CreateXMLNode(idr.ElementNode, "note", idr.XMLSpecific{}))
+		return t, shape, vals
+	}
+	n1, s1, v1 := mk("r1")
+	n2, s2, v2 := mk("r2")
+	c1 := (&rawRecord{node: n1}).Checksum()
+	c2 := (&rawRecord{node: n2}).Checksum()
+	same := s1 == s2 && v1 == v2
+	zz.Assert((c1 == c2) == same, "checksums are equal exactly when shape and values are")
+	zz.Cover("compared")
 }
